@@ -7,7 +7,8 @@ PROPERTY_ID = "C12"
 RULE = ("one-step programs: full product scalars {00.., FF.., every single-bit scalar (thorough: also every two-adjacent-bit and every all-ones-but-one-bit scalar), clamp-edge patterns, 4 patterns} x u {0,1,9,p-1,p,p+1,2^255-1,2^256-1, every small u 2..32 (thorough 2..255) and p-u, "
         "small-order u values and their non-canonical twins, each also with bit 255 set, 4 patterns} through curve25519 and x25519::dh; fixed-base function == "
         "general function at u=9 for every scalar; both parties of an exchange agree for all pairs of pattern scalars; RFC 7748 iteration 1 and 1000; "
-        "oracle = python RFC 7748 section 5; distinct = program text")
+        "oracle = python RFC 7748 section 5; distinct = program text"
+        " Also: every small u 2..32 (thorough 2..255) and p-u; the conversions of the three x25519 wrapper types; component shards: C15's limb-field and result-steering field programs incl. the ladder's multiplication by 121666 (hook); the corpus again on the checked-arithmetic, force-32bits and native builds.")
 ASSUMPTIONS = ["python RFC 7748 ladder on integers (validated on the RFC vectors and OpenSSL cross vectors)", "scalars and u outside the enumerated set are not covered"]
 
 PP = curve.P
